@@ -84,6 +84,12 @@ def build(run):
         ("variable", variable(f * g) * f), ("restricted", (f * g)("+")), ("constant", c0 * f + 2.5), ("literals", 3 * f - 0.25 * g + 7),
         ("vector component", as_vector([f, g * f])[1]), ("identity contraction", C.Identity(2)[i, j] * A[i, j]), ("matrix vector", (A * u)[1]),
         ("transpose", A.T[0, 1]), ("float power", f ** 2.0),
+        # every compound tensor operator of the language, on the 2x2 tensors of the corpus and on 3x3 matrices assembled from them
+        ("dev 2x2 [0,0]", ufl.dev(A)[0, 0]), ("dev 2x2 [0,1]", ufl.dev(A)[0, 1]), ("tr(dev 2x2)", tr(ufl.dev(A))), ("skew", ufl.skew(A)[0, 1]), ("sym", ufl.sym(A)[1, 0]),
+        ("cofac 2x2", ufl.cofac(A)[0, 1]), ("perp", ufl.perp(u)[0] * v[1]), ("inner(A,B)", inner(A, B)), ("dot(A,B)", dot(A, B)[1, 0]), ("tr", tr(A)),
+        ("det 3x3", det(ufl.as_matrix([[f, g, 1], [u[0], u[1], g], [2, f, v[0]]]))), ("dev 3x3 [1,1]", ufl.dev(ufl.as_matrix([[f, g, 1], [u[0], u[1], g], [2, f, v[0]]]))[1, 1]),
+        ("cofac 3x3 [0,1]", ufl.cofac(ufl.as_matrix([[f, g, 1], [u[0], u[1], g], [2, f, v[0]]]))[0, 1]),
+        ("cross", cross(as_vector([f, g, 1]), as_vector([g, f, 2]))[0]), ("nabla_grad", ufl.nabla_grad(u)[0, 1]), ("nabla_div", ufl.nabla_div(u)), ("curl 2d", ufl.curl(u)),
     ]
     math_exprs = [
         ("sqrt", sqrt(1 + f * f)), ("exp ln", exp(f) * ln(1 + g * g)), ("sin cos", sin(f) * cos(g)), ("tanh cosh", tanh(f) + cosh(g)), ("atan2", atan2(f, 1 + g * g)),
